@@ -254,19 +254,29 @@ package bufimageutil
 //@ func (t *transitiveClosure) includeType(typeName, imageIndex, options) (err)
 //@   property C12
 //@   reveal f_mode, f_elem
-//@   modifies heap
+//@   modifies heap, ghost.l_kept, ghost.l_optRead, ghost.l_impTo, ghost.l_impCount
 //@   ensures unknown-name-fails: !(typeName in old(imageIndex.ByName)) && !(typeName in old(imageIndex.Packages)) ==> err != nil
 //@   ensures excluded-rejected: typeName in old(imageIndex.ByName) && f_mode(old(t.elements), f_elem(old(imageIndex.ByName), typeName)) == inclusionModeExcluded ==> err != nil
 //@   ensures extension-of-excluded-rejected: typeName in old(imageIndex.ByName) && f_elem(old(imageIndex.ByName), typeName) != nil && typeOf(f_elem(old(imageIndex.ByName), typeName)) == typeId(*descriptorpb.FieldDescriptorProto) && old(cast(*descriptorpb.FieldDescriptorProto, f_elem(imageIndex.ByName, typeName)).Extendee) != nil && f_mode(old(t.elements), f_elem(old(imageIndex.ByName), strings.TrimPrefix(cast(*descriptorpb.FieldDescriptorProto, f_elem(old(imageIndex.ByName), typeName)).GetExtendee(), "."))) == inclusionModeExcluded ==> err != nil
 //@   canary ensures err != nil
 //@   canary ensures err == nil
+//@   ensures unknown-name-adds-nothing: !(typeName in old(imageIndex.ByName)) && !(typeName in old(imageIndex.Packages)) ==> t.elements == old(t.elements) && t.imports == old(t.imports) && ghost.l_kept == old(ghost.l_kept) && ghost.l_optRead == old(ghost.l_optRead) && ghost.l_impTo == old(ghost.l_impTo) && ghost.l_impCount == old(ghost.l_impCount)
+//@   ensures excluded-adds-nothing: typeName in old(imageIndex.ByName) && f_mode(old(t.elements), f_elem(old(imageIndex.ByName), typeName)) == inclusionModeExcluded ==> t.elements == old(t.elements) && t.imports == old(t.imports) && ghost.l_kept == old(ghost.l_kept) && ghost.l_optRead == old(ghost.l_optRead) && ghost.l_impTo == old(ghost.l_impTo) && ghost.l_impCount == old(ghost.l_impCount)
+//@   ensures kept-monotone: forall d ref :: d in old(ghost.l_kept) ==> d in ghost.l_kept
+//@   ensures explored-monotone: forall d ref :: d in old(ghost.l_optRead) ==> d in ghost.l_optRead
+//@   ensures imports-monotone: ghost.l_impCount >= old(ghost.l_impCount) && (forall p string :: p in old(ghost.l_impTo) ==> p in ghost.l_impTo)
+//@   ensures explored-only-kept: forall d ref :: d != nil && d in ghost.l_optRead && !(d in old(ghost.l_optRead)) && l_needsKept(d) ==> d in ghost.l_kept
+//@   loop 1 invariant forall d ref :: d in old(ghost.l_kept) ==> d in ghost.l_kept
+//@   loop 1 invariant forall d ref :: d in old(ghost.l_optRead) ==> d in ghost.l_optRead
+//@   loop 1 invariant ghost.l_impCount >= old(ghost.l_impCount) && (forall p string :: p in old(ghost.l_impTo) ==> p in ghost.l_impTo)
+//@   loop 1 invariant forall d ref :: d != nil && d in ghost.l_optRead && !(d in old(ghost.l_optRead)) && l_needsKept(d) ==> d in ghost.l_kept
 //
 // addFieldType (closure side of remapField): a field whose message/group/enum type is excluded is not included
 // (and that is not an error); a type name that is not in the image is an error; scalar fields are always included.
 //@ func (t *transitiveClosure) addFieldType(field, referrerFile, imageIndex, opts) (r, err)
 //@   property C12
 //@   reveal f_mode, f_elem
-//@   modifies heap
+//@   modifies heap, ghost.l_kept, ghost.l_optRead, ghost.l_impTo, ghost.l_impCount
 //@   ensures excluded-type-drops-field: (field.GetType() == descriptorpb.FieldDescriptorProto_TYPE_ENUM || field.GetType() == descriptorpb.FieldDescriptorProto_TYPE_MESSAGE || field.GetType() == descriptorpb.FieldDescriptorProto_TYPE_GROUP) && strings.TrimPrefix(field.GetTypeName(), ".") in old(imageIndex.ByName) && f_mode(old(t.elements), f_elem(old(imageIndex.ByName), strings.TrimPrefix(field.GetTypeName(), "."))) == inclusionModeExcluded ==> !r && err == nil
 //@   ensures missing-type-fails: (field.GetType() == descriptorpb.FieldDescriptorProto_TYPE_ENUM || field.GetType() == descriptorpb.FieldDescriptorProto_TYPE_MESSAGE || field.GetType() == descriptorpb.FieldDescriptorProto_TYPE_GROUP) && !(strings.TrimPrefix(field.GetTypeName(), ".") in old(imageIndex.ByName)) ==> !r && err != nil
 //@   ensures scalar-included: field.GetType() >= descriptorpb.FieldDescriptorProto_TYPE_DOUBLE && field.GetType() <= descriptorpb.FieldDescriptorProto_TYPE_SINT64 && field.GetType() != descriptorpb.FieldDescriptorProto_TYPE_ENUM && field.GetType() != descriptorpb.FieldDescriptorProto_TYPE_MESSAGE && field.GetType() != descriptorpb.FieldDescriptorProto_TYPE_GROUP ==> r && err == nil
@@ -276,6 +286,15 @@ package bufimageutil
 //@   ensures no-message-newly-excluded: !old(opts.includeCustomOptions) ==> (forall d namedDescriptor :: d != nil && typeOf(d) == typeId(*descriptorpb.DescriptorProto) && f_mode(old(t.elements), d) != inclusionModeExcluded ==> f_mode(t.elements, d) != inclusionModeExcluded)
 //@   canary ensures r
 //@   canary ensures !r
+// minimality: a field that is dropped (its type is excluded), a scalar field and a field whose type cannot be resolved
+// contribute nothing to the closure: no element, no import, nothing explored
+//@   ensures dropped-adds-nothing: !r && err == nil ==> t.elements == old(t.elements) && t.imports == old(t.imports) && ghost.l_kept == old(ghost.l_kept) && ghost.l_optRead == old(ghost.l_optRead) && ghost.l_impTo == old(ghost.l_impTo) && ghost.l_impCount == old(ghost.l_impCount)
+//@   ensures scalar-adds-nothing: field.GetType() >= descriptorpb.FieldDescriptorProto_TYPE_DOUBLE && field.GetType() <= descriptorpb.FieldDescriptorProto_TYPE_SINT64 && !(field.GetType() == descriptorpb.FieldDescriptorProto_TYPE_ENUM || field.GetType() == descriptorpb.FieldDescriptorProto_TYPE_MESSAGE || field.GetType() == descriptorpb.FieldDescriptorProto_TYPE_GROUP) ==> t.elements == old(t.elements) && t.imports == old(t.imports) && ghost.l_kept == old(ghost.l_kept) && ghost.l_optRead == old(ghost.l_optRead) && ghost.l_impTo == old(ghost.l_impTo) && ghost.l_impCount == old(ghost.l_impCount)
+//@   ensures unresolved-adds-nothing: (field.GetType() < descriptorpb.FieldDescriptorProto_TYPE_DOUBLE || field.GetType() > descriptorpb.FieldDescriptorProto_TYPE_SINT64 || ((field.GetType() == descriptorpb.FieldDescriptorProto_TYPE_ENUM || field.GetType() == descriptorpb.FieldDescriptorProto_TYPE_MESSAGE || field.GetType() == descriptorpb.FieldDescriptorProto_TYPE_GROUP) && !(strings.TrimPrefix(field.GetTypeName(), ".") in old(imageIndex.ByName)))) ==> t.elements == old(t.elements) && t.imports == old(t.imports) && ghost.l_kept == old(ghost.l_kept) && ghost.l_optRead == old(ghost.l_optRead) && ghost.l_impTo == old(ghost.l_impTo) && ghost.l_impCount == old(ghost.l_impCount)
+//@   ensures kept-monotone: forall d ref :: d in old(ghost.l_kept) ==> d in ghost.l_kept
+//@   ensures explored-monotone: forall d ref :: d in old(ghost.l_optRead) ==> d in ghost.l_optRead
+//@   ensures imports-monotone: ghost.l_impCount >= old(ghost.l_impCount) && (forall p string :: p in old(ghost.l_impTo) ==> p in ghost.l_impTo)
+//@   ensures explored-only-kept: forall d ref :: d != nil && d in ghost.l_optRead && !(d in old(ghost.l_optRead)) && l_needsKept(d) ==> d in ghost.l_kept
 //
 // The inclusion walk must not exclude anything the filter did not name: "a filter built only from type names that
 // exist in the image does not fail because of unrelated content" and "contains every included element together with
@@ -288,20 +307,84 @@ package bufimageutil
 // Resp; Do2(Req) returns Other}, WithIncludeTypes("pkg.Svc"), WithExcludeTypes("pkg.Resp") drops Do2 and Req as well;
 // exclude-only WithExcludeTypes("pkg.Resp") fails with "cannot include method pkg.Svc.Do as the input type pkg.Req is
 // excluded". With `t.elements[method] = inclusionModeExcluded` every obligation of addElement is discharged.
+// MINIMALITY (ghost bookkeeping, see /verif/specs/ghost.spec: l_kept, l_optRead, l_impTo, l_impCount).
+// "nothing that no kept element needs": custom options are explored only for descriptors that survive. ghost.l_kept
+// collects what has been established as surviving (elements entered into the closure by addElement / addEnclosing, plain
+// fields whose type was added, oneofs that have such a field); ghost.l_optRead collects the descriptors whose options were
+// ranged over (recorded here, just before the options message is walked). The precondition explored-is-kept makes every
+// caller justify the descriptor it explores; explored-only-kept is the resulting statement about a whole call tree.
+// (Enum values and extension ranges have no keep/drop decision of their own: they go with their enum / message.)
+// Engine note: the reflection callback options.Range(func..) is an uncontracted external call; the engine havocs the heap
+// there but not ghost state, although the callback re-enters addElement. Therefore only clauses that are reflexive and
+// transitive (kept-monotone, explored-monotone, imports-monotone, explored-only-kept) are claimed across it, and each of them
+// is verified for a single invocation of the callback (closure-post obligations, also in exploreOptionValueForAny /
+// exploreOptionSingularValueForAny); the step "holds for every invocation => holds for Range" is not checked by the engine.
 //@ func (t *transitiveClosure) exploreCustomOptions(descriptor, referrerFile, imageIndex, opts) (err)
 //@   property C12
-//@   modifies heap
+//@   reveal l_needsKept, l_hasOptions, f_mode, f_elem
+//@   modifies heap, ghost.l_kept, ghost.l_optRead, ghost.l_impTo, ghost.l_impCount
+//@   requires explored-is-kept: descriptor != nil && l_needsKept(descriptor) ==> descriptor in ghost.l_kept
+//@   ghost before "optionsName := options.Descriptor().FullName()" l_optRead := add(ghost.l_optRead, descriptor)
 //@   ensures off-is-noop: !old(opts.includeCustomOptions) ==> err == nil && t.elements == old(t.elements) && opts.includeCustomOptions == old(opts.includeCustomOptions)
+//@   ensures off-explores-nothing: !old(opts.includeCustomOptions) ==> t.imports == old(t.imports) && ghost.l_kept == old(ghost.l_kept) && ghost.l_optRead == old(ghost.l_optRead) && ghost.l_impTo == old(ghost.l_impTo) && ghost.l_impCount == old(ghost.l_impCount)
+//@   ensures explored-recorded: old(opts.includeCustomOptions) && descriptor != nil && l_hasOptions(descriptor) ==> descriptor in ghost.l_optRead
+//@   ensures unsupported-fails: old(opts.includeCustomOptions) && !l_hasOptions(descriptor) ==> err != nil && t.elements == old(t.elements) && t.imports == old(t.imports) && ghost.l_kept == old(ghost.l_kept) && ghost.l_optRead == old(ghost.l_optRead) && ghost.l_impTo == old(ghost.l_impTo) && ghost.l_impCount == old(ghost.l_impCount)
+//@   ensures kept-monotone: forall d ref :: d in old(ghost.l_kept) ==> d in ghost.l_kept
+//@   ensures explored-monotone: forall d ref :: d in old(ghost.l_optRead) ==> d in ghost.l_optRead
+//@   ensures imports-monotone: ghost.l_impCount >= old(ghost.l_impCount) && (forall p string :: p in old(ghost.l_impTo) ==> p in ghost.l_impTo)
+//@   ensures explored-only-kept: forall d ref :: d != nil && d in ghost.l_optRead && !(d in old(ghost.l_optRead)) && l_needsKept(d) ==> d in ghost.l_kept
+// the callback that walks the set option fields: an option that is itself excluded by the filter (or any custom option when
+// custom options are not retained) pulls nothing into the closure
+//@   closure 0 ensures excluded-option-adds-nothing: fd.IsExtension() && (!old(opts.includeCustomOptions) || f_mode(old(t.elements), f_elem(old(imageIndex.ByName), fd.FullName())) == inclusionModeExcluded) ==> r && t.elements == old(t.elements) && t.imports == old(t.imports) && ghost.l_kept == old(ghost.l_kept) && ghost.l_optRead == old(ghost.l_optRead) && ghost.l_impTo == old(ghost.l_impTo) && ghost.l_impCount == old(ghost.l_impCount)
+//@   closure 0 ensures kept-monotone: forall d ref :: d in old(ghost.l_kept) ==> d in ghost.l_kept
+//@   closure 0 ensures explored-monotone: forall d ref :: d in old(ghost.l_optRead) ==> d in ghost.l_optRead
+//@   closure 0 ensures imports-monotone: ghost.l_impCount >= old(ghost.l_impCount) && (forall p string :: p in old(ghost.l_impTo) ==> p in ghost.l_impTo)
+//@   closure 0 ensures explored-only-kept: forall d ref :: d != nil && d in ghost.l_optRead && !(d in old(ghost.l_optRead)) && l_needsKept(d) ==> d in ghost.l_kept
+//
+// The walk into option values (Any payloads): same reflexive-transitive bookkeeping clauses, so that what is claimed after a
+// reflection callback (Range) is verified for each single invocation of the callback (closure-post obligations).
+//@ func (t *transitiveClosure) exploreOptionValueForAny(fd, val, referrerFile, imageIndex, opts) (err)
+//@   property C12
+//@   reveal l_needsKept
+//@   modifies heap, ghost.l_kept, ghost.l_optRead, ghost.l_impTo, ghost.l_impCount
+//@   ensures kept-monotone: forall d ref :: d in old(ghost.l_kept) ==> d in ghost.l_kept
+//@   ensures explored-monotone: forall d ref :: d in old(ghost.l_optRead) ==> d in ghost.l_optRead
+//@   ensures imports-monotone: ghost.l_impCount >= old(ghost.l_impCount) && (forall p string :: p in old(ghost.l_impTo) ==> p in ghost.l_impTo)
+//@   ensures explored-only-kept: forall d ref :: d != nil && d in ghost.l_optRead && !(d in old(ghost.l_optRead)) && l_needsKept(d) ==> d in ghost.l_kept
+//@   loop 0 invariant forall d ref :: d in old(ghost.l_kept) ==> d in ghost.l_kept
+//@   loop 0 invariant forall d ref :: d in old(ghost.l_optRead) ==> d in ghost.l_optRead
+//@   loop 0 invariant ghost.l_impCount >= old(ghost.l_impCount) && (forall p string :: p in old(ghost.l_impTo) ==> p in ghost.l_impTo)
+//@   loop 0 invariant forall d ref :: d != nil && d in ghost.l_optRead && !(d in old(ghost.l_optRead)) && l_needsKept(d) ==> d in ghost.l_kept
+//@   closure 0 ensures kept-monotone: forall d ref :: d in old(ghost.l_kept) ==> d in ghost.l_kept
+//@   closure 0 ensures explored-monotone: forall d ref :: d in old(ghost.l_optRead) ==> d in ghost.l_optRead
+//@   closure 0 ensures imports-monotone: ghost.l_impCount >= old(ghost.l_impCount) && (forall p string :: p in old(ghost.l_impTo) ==> p in ghost.l_impTo)
+//@   closure 0 ensures explored-only-kept: forall d ref :: d != nil && d in ghost.l_optRead && !(d in old(ghost.l_optRead)) && l_needsKept(d) ==> d in ghost.l_kept
+//
+//@ func (t *transitiveClosure) exploreOptionSingularValueForAny(msg, referrerFile, imageIndex, opts) (err)
+//@   property C12
+//@   reveal l_needsKept
+//@   modifies heap, ghost.l_kept, ghost.l_optRead, ghost.l_impTo, ghost.l_impCount
+//@   ensures kept-monotone: forall d ref :: d in old(ghost.l_kept) ==> d in ghost.l_kept
+//@   ensures explored-monotone: forall d ref :: d in old(ghost.l_optRead) ==> d in ghost.l_optRead
+//@   ensures imports-monotone: ghost.l_impCount >= old(ghost.l_impCount) && (forall p string :: p in old(ghost.l_impTo) ==> p in ghost.l_impTo)
+//@   ensures explored-only-kept: forall d ref :: d != nil && d in ghost.l_optRead && !(d in old(ghost.l_optRead)) && l_needsKept(d) ==> d in ghost.l_kept
+//@   closure 0 ensures kept-monotone: forall d ref :: d in old(ghost.l_kept) ==> d in ghost.l_kept
+//@   closure 0 ensures explored-monotone: forall d ref :: d in old(ghost.l_optRead) ==> d in ghost.l_optRead
+//@   closure 0 ensures imports-monotone: ghost.l_impCount >= old(ghost.l_impCount) && (forall p string :: p in old(ghost.l_impTo) ==> p in ghost.l_impTo)
+//@   closure 0 ensures explored-only-kept: forall d ref :: d != nil && d in ghost.l_optRead && !(d in old(ghost.l_optRead)) && l_needsKept(d) ==> d in ghost.l_kept
 //
 // addImport writes through an inner map read out of t.imports (aliasing of maps is outside the fragment):
 // its frame (only t.imports changes) is assumed, not proved
+// ghost instrumentation (trusted with the frame): every call is counted and its target file recorded
 //@ trusted func (t *transitiveClosure) addImport(fromPath, toPath)
-//@   modifies heap transitiveClosure.imports
+//@   modifies heap transitiveClosure.imports, ghost.l_impTo, ghost.l_impCount
+//@   ensures call-counted: ghost.l_impCount == old(ghost.l_impCount) + 1
+//@   ensures target-recorded: ghost.l_impTo == add(old(ghost.l_impTo), toPath)
 //
 //@ func (t *transitiveClosure) addElement(descriptor, referrerFile, impliedByCustomOption, imageIndex, opts) (err)
 //@   property C12
-//@   reveal f_mode
-//@   modifies heap
+//@   reveal f_mode, l_needsKept
+//@   modifies heap, ghost.l_kept, ghost.l_optRead, ghost.l_impTo, ghost.l_impCount
 //@   ensures options-untouched: !old(opts.includeCustomOptions) ==> !opts.includeCustomOptions
 //@   ensures no-message-newly-excluded: !old(opts.includeCustomOptions) ==> (forall d namedDescriptor :: d != nil && typeOf(d) == typeId(*descriptorpb.DescriptorProto) && f_mode(old(t.elements), d) != inclusionModeExcluded ==> f_mode(t.elements, d) != inclusionModeExcluded)
 //@   loop 0 invariant !old(opts.includeCustomOptions) ==> !opts.includeCustomOptions
@@ -316,12 +399,77 @@ package bufimageutil
 //@   loop 4 invariant !old(opts.includeCustomOptions) ==> (forall d namedDescriptor :: d != nil && typeOf(d) == typeId(*descriptorpb.DescriptorProto) && f_mode(old(t.elements), d) != inclusionModeExcluded ==> f_mode(t.elements, d) != inclusionModeExcluded)
 //@   loop 5 invariant !old(opts.includeCustomOptions) ==> !opts.includeCustomOptions
 //@   loop 5 invariant !old(opts.includeCustomOptions) ==> (forall d namedDescriptor :: d != nil && typeOf(d) == typeId(*descriptorpb.DescriptorProto) && f_mode(old(t.elements), d) != inclusionModeExcluded ==> f_mode(t.elements, d) != inclusionModeExcluded)
+// minimality (see exploreCustomOptions). Ghost code: the element itself survives once it has been entered into the
+// closure; a plain field survives iff addFieldType reported it included; a oneof survives iff one of its fields does.
+//@   ghost after "if impliedByCustomOption {" l_kept := add(ghost.l_kept, descriptor)
+//@   ghost after "isIncluded, err := t.addFieldType(field" l_kept := ite(isIncluded && err == nil, add(ghost.l_kept, field), ghost.l_kept)
+//@   ghost after "index := *index" l_kept := ite(field in ghost.l_kept && 0 <= index && index < len(typedDescriptor.GetOneofDecl()), add(ghost.l_kept, typedDescriptor.GetOneofDecl()[index]), ghost.l_kept)
+// imports are recorded only towards the file of an element that is in the closure: either it was there already with a
+// mode other than excluded, or this call has just entered it
+//@   assert before "t.addImport(referrerFile, descriptorInfo.file.Path())" import-target-added: descriptor in ghost.l_kept || (descriptor in t.elements && t.elements[descriptor] != inclusionModeExcluded)
+//@   ensures excluded-is-noop: f_mode(old(t.elements), descriptor) == inclusionModeExcluded ==> err == nil && t.elements == old(t.elements) && t.imports == old(t.imports) && ghost.l_kept == old(ghost.l_kept) && ghost.l_optRead == old(ghost.l_optRead) && ghost.l_impTo == old(ghost.l_impTo) && ghost.l_impCount == old(ghost.l_impCount)
+//@   ensures already-added-adds-only-import: descriptor in old(imageIndex.ByDescriptor) && descriptor in old(t.elements) && old(t.elements)[descriptor] != inclusionModeEnclosing && old(t.elements)[descriptor] != inclusionModeExcluded ==> err == nil && ghost.l_kept == old(ghost.l_kept) && ghost.l_optRead == old(ghost.l_optRead) && ghost.l_impCount == old(ghost.l_impCount) + 1 && ghost.l_impTo == add(old(ghost.l_impTo), old(imageIndex.ByDescriptor)[descriptor].file.Path())
+//@   ensures already-added-only-upgraded: descriptor in old(t.elements) && old(t.elements)[descriptor] != inclusionModeEnclosing && old(t.elements)[descriptor] != inclusionModeExcluded ==> (forall d namedDescriptor :: d != descriptor ==> ((d in t.elements) <==> (d in old(t.elements))) && t.elements[d] == old(t.elements)[d]) && descriptor in t.elements && t.elements[descriptor] == ite(old(t.elements)[descriptor] == inclusionModeImplicit && !impliedByCustomOption, inclusionModeExplicit, old(t.elements)[descriptor])
+//@   ensures added-import-recorded: err == nil && descriptor in old(imageIndex.ByDescriptor) && f_mode(old(t.elements), descriptor) != inclusionModeExcluded && typeOf(descriptor) != typeId(*descriptorpb.FieldDescriptorProto) ==> old(imageIndex.ByDescriptor)[descriptor].file.Path() in ghost.l_impTo && ghost.l_impCount > old(ghost.l_impCount)
+//@   ensures kept-monotone: forall d ref :: d in old(ghost.l_kept) ==> d in ghost.l_kept
+//@   ensures explored-monotone: forall d ref :: d in old(ghost.l_optRead) ==> d in ghost.l_optRead
+//@   ensures imports-monotone: ghost.l_impCount >= old(ghost.l_impCount) && (forall p string :: p in old(ghost.l_impTo) ==> p in ghost.l_impTo)
+//@   ensures explored-only-kept: forall d ref :: d != nil && d in ghost.l_optRead && !(d in old(ghost.l_optRead)) && l_needsKept(d) ==> d in ghost.l_kept
+//@   loop 0 invariant forall d ref :: d in old(ghost.l_kept) ==> d in ghost.l_kept
+//@   loop 0 invariant forall d ref :: d in old(ghost.l_optRead) ==> d in ghost.l_optRead
+//@   loop 0 invariant ghost.l_impCount >= old(ghost.l_impCount) && (forall p string :: p in old(ghost.l_impTo) ==> p in ghost.l_impTo)
+//@   loop 0 invariant forall d ref :: d != nil && d in ghost.l_optRead && !(d in old(ghost.l_optRead)) && l_needsKept(d) ==> d in ghost.l_kept
+//@   loop 0 invariant descriptor in ghost.l_kept
+//@   loop 1 invariant forall d ref :: d in old(ghost.l_kept) ==> d in ghost.l_kept
+//@   loop 1 invariant forall d ref :: d in old(ghost.l_optRead) ==> d in ghost.l_optRead
+//@   loop 1 invariant ghost.l_impCount >= old(ghost.l_impCount) && (forall p string :: p in old(ghost.l_impTo) ==> p in ghost.l_impTo)
+//@   loop 1 invariant forall d ref :: d != nil && d in ghost.l_optRead && !(d in old(ghost.l_optRead)) && l_needsKept(d) ==> d in ghost.l_kept
+//@   loop 1 invariant descriptor in ghost.l_kept
+//@   loop 2 invariant forall d ref :: d in old(ghost.l_kept) ==> d in ghost.l_kept
+//@   loop 2 invariant forall d ref :: d in old(ghost.l_optRead) ==> d in ghost.l_optRead
+//@   loop 2 invariant ghost.l_impCount >= old(ghost.l_impCount) && (forall p string :: p in old(ghost.l_impTo) ==> p in ghost.l_impTo)
+//@   loop 2 invariant forall d ref :: d != nil && d in ghost.l_optRead && !(d in old(ghost.l_optRead)) && l_needsKept(d) ==> d in ghost.l_kept
+//@   loop 2 invariant descriptor in ghost.l_kept
+//@   loop 3 invariant forall d ref :: d in old(ghost.l_kept) ==> d in ghost.l_kept
+//@   loop 3 invariant forall d ref :: d in old(ghost.l_optRead) ==> d in ghost.l_optRead
+//@   loop 3 invariant ghost.l_impCount >= old(ghost.l_impCount) && (forall p string :: p in old(ghost.l_impTo) ==> p in ghost.l_impTo)
+//@   loop 3 invariant forall d ref :: d != nil && d in ghost.l_optRead && !(d in old(ghost.l_optRead)) && l_needsKept(d) ==> d in ghost.l_kept
+//@   loop 3 invariant descriptor in ghost.l_kept
+//@   loop 4 invariant forall d ref :: d in old(ghost.l_kept) ==> d in ghost.l_kept
+//@   loop 4 invariant forall d ref :: d in old(ghost.l_optRead) ==> d in ghost.l_optRead
+//@   loop 4 invariant ghost.l_impCount >= old(ghost.l_impCount) && (forall p string :: p in old(ghost.l_impTo) ==> p in ghost.l_impTo)
+//@   loop 4 invariant forall d ref :: d != nil && d in ghost.l_optRead && !(d in old(ghost.l_optRead)) && l_needsKept(d) ==> d in ghost.l_kept
+//@   loop 4 invariant descriptor in ghost.l_kept
+//@   loop 5 invariant forall d ref :: d in old(ghost.l_kept) ==> d in ghost.l_kept
+//@   loop 5 invariant forall d ref :: d in old(ghost.l_optRead) ==> d in ghost.l_optRead
+//@   loop 5 invariant ghost.l_impCount >= old(ghost.l_impCount) && (forall p string :: p in old(ghost.l_impTo) ==> p in ghost.l_impTo)
+//@   loop 5 invariant forall d ref :: d != nil && d in ghost.l_optRead && !(d in old(ghost.l_optRead)) && l_needsKept(d) ==> d in ghost.l_kept
+//@   loop 5 invariant descriptor in ghost.l_kept
+//@   loop 1 invariant len(oneofFieldCounts) == len(typedDescriptor.GetOneofDecl()) && (forall j int :: 0 <= j && j < len(oneofFieldCounts) && oneofFieldCounts[j] != 0 ==> typedDescriptor.GetOneofDecl()[j] in ghost.l_kept)
+//@   loop 2 invariant len(oneofFieldCounts) == len(typedDescriptor.GetOneofDecl()) && (forall j int :: 0 <= j && j < len(oneofFieldCounts) && oneofFieldCounts[j] != 0 ==> typedDescriptor.GetOneofDecl()[j] in ghost.l_kept)
 //
 //@ func (t *transitiveClosure) addEnclosing(descriptor, enclosingFile, imageIndex, opts) (err)
 //@   property C12
-//@   reveal f_mode
-//@   modifies heap
+//@   reveal f_mode, l_needsKept
+//@   modifies heap, ghost.l_kept, ghost.l_optRead, ghost.l_impTo, ghost.l_impCount
 //@   ensures options-untouched: !old(opts.includeCustomOptions) ==> !opts.includeCustomOptions
 //@   ensures no-message-newly-excluded: !old(opts.includeCustomOptions) ==> (forall d namedDescriptor :: d != nil && typeOf(d) == typeId(*descriptorpb.DescriptorProto) && f_mode(old(t.elements), d) != inclusionModeExcluded ==> f_mode(t.elements, d) != inclusionModeExcluded)
 //@   loop 0 invariant !old(opts.includeCustomOptions) ==> !opts.includeCustomOptions
 //@   loop 0 invariant !old(opts.includeCustomOptions) ==> (forall d namedDescriptor :: d != nil && typeOf(d) == typeId(*descriptorpb.DescriptorProto) && f_mode(old(t.elements), d) != inclusionModeExcluded ==> f_mode(t.elements, d) != inclusionModeExcluded)
+// minimality: only messages, services and files that are not yet in the closure are entered, as enclosing elements; without
+// custom-option retention nothing else changes (no import, nothing explored, no existing mark touched)
+//@   ghost after "t.elements[descriptor] = inclusionModeEnclosing" l_kept := add(ghost.l_kept, descriptor)
+//@   ensures nothing-to-enclose-is-noop: descriptor == nil || descriptor in old(t.elements) || (typeOf(descriptor) != typeId(*descriptorpb.DescriptorProto) && typeOf(descriptor) != typeId(*descriptorpb.ServiceDescriptorProto) && typeOf(descriptor) != typeId(*descriptorpb.FileDescriptorProto)) ==> err == nil && t.elements == old(t.elements) && t.imports == old(t.imports) && ghost.l_kept == old(ghost.l_kept) && ghost.l_optRead == old(ghost.l_optRead) && ghost.l_impTo == old(ghost.l_impTo) && ghost.l_impCount == old(ghost.l_impCount)
+//@   ensures off-adds-only-enclosing-marks: !old(opts.includeCustomOptions) ==> err == nil && t.imports == old(t.imports) && ghost.l_optRead == old(ghost.l_optRead) && ghost.l_impTo == old(ghost.l_impTo) && ghost.l_impCount == old(ghost.l_impCount) && (forall d namedDescriptor :: d in old(t.elements) ==> d in t.elements && t.elements[d] == old(t.elements)[d]) && (forall d namedDescriptor :: d in t.elements && !(d in old(t.elements)) ==> t.elements[d] == inclusionModeEnclosing && (typeOf(d) == typeId(*descriptorpb.DescriptorProto) || typeOf(d) == typeId(*descriptorpb.ServiceDescriptorProto) || typeOf(d) == typeId(*descriptorpb.FileDescriptorProto)))
+//@   ensures kept-monotone: forall d ref :: d in old(ghost.l_kept) ==> d in ghost.l_kept
+//@   ensures explored-monotone: forall d ref :: d in old(ghost.l_optRead) ==> d in ghost.l_optRead
+//@   ensures imports-monotone: ghost.l_impCount >= old(ghost.l_impCount) && (forall p string :: p in old(ghost.l_impTo) ==> p in ghost.l_impTo)
+//@   ensures explored-only-kept: forall d ref :: d != nil && d in ghost.l_optRead && !(d in old(ghost.l_optRead)) && l_needsKept(d) ==> d in ghost.l_kept
+//@   loop 0 invariant forall d ref :: d in old(ghost.l_kept) ==> d in ghost.l_kept
+//@   loop 0 invariant forall d ref :: d in old(ghost.l_optRead) ==> d in ghost.l_optRead
+//@   loop 0 invariant ghost.l_impCount >= old(ghost.l_impCount) && (forall p string :: p in old(ghost.l_impTo) ==> p in ghost.l_impTo)
+//@   loop 0 invariant forall d ref :: d != nil && d in ghost.l_optRead && !(d in old(ghost.l_optRead)) && l_needsKept(d) ==> d in ghost.l_kept
+//@   loop 0 invariant (descriptor == old(descriptor) && t.elements == old(t.elements) && t.imports == old(t.imports) && ghost.l_kept == old(ghost.l_kept) && ghost.l_optRead == old(ghost.l_optRead) && ghost.l_impTo == old(ghost.l_impTo) && ghost.l_impCount == old(ghost.l_impCount)) || (old(descriptor) != nil && !(old(descriptor) in old(t.elements)) && (typeOf(old(descriptor)) == typeId(*descriptorpb.DescriptorProto) || typeOf(old(descriptor)) == typeId(*descriptorpb.ServiceDescriptorProto) || typeOf(old(descriptor)) == typeId(*descriptorpb.FileDescriptorProto)))
+//@   loop 0 invariant !old(opts.includeCustomOptions) ==> t.imports == old(t.imports) && ghost.l_optRead == old(ghost.l_optRead) && ghost.l_impTo == old(ghost.l_impTo) && ghost.l_impCount == old(ghost.l_impCount)
+//@   loop 0 invariant !old(opts.includeCustomOptions) ==> (forall d namedDescriptor :: d in old(t.elements) ==> d in t.elements && t.elements[d] == old(t.elements)[d])
+//@   loop 0 invariant !old(opts.includeCustomOptions) ==> (forall d namedDescriptor :: d in t.elements && !(d in old(t.elements)) ==> t.elements[d] == inclusionModeEnclosing && (typeOf(d) == typeId(*descriptorpb.DescriptorProto) || typeOf(d) == typeId(*descriptorpb.ServiceDescriptorProto) || typeOf(d) == typeId(*descriptorpb.FileDescriptorProto)))
